@@ -53,7 +53,7 @@ REAL = ['asyncssh stream.py (SSHReader/SSHWriter/SSHStreamSession), '
         'process.py (SSHClientProcess/SSHServerProcess, redirection), '
         'channel, connection of both endpoints']
 STUB = ['event loop + clock', 'TCP', 'executor', 'OS randomness']
-PROBES = ['redirect_switched', 'redirect_concat', 'read_cancelled', 'async_iteration', 'mode_reader', 'mode_run', 'mode_redirect', 'text_mode',
+PROBES = ['server_side_redirect', 'redirect_switched', 'redirect_concat', 'read_cancelled', 'async_iteration', 'mode_reader', 'mode_run', 'mode_redirect', 'text_mode',
           'tiny_packets', 'readuntil_multi', 'readuntil_regex',
           'incomplete_read_at_eof', 'limit_overrun', 'exit_signal',
           'exit_status', 'redirect_process', 'redirect_file',
@@ -173,6 +173,10 @@ def gen_plan(rng):
         # the server drops the connection as soon as the command's channel
         # is closed from both sides (the client may still hold unread data)
         'srv_hangup': rng.chance(20),
+        # the command forwards two local sources instead of writing itself
+        'srv_redirect': mode in ('reader', 'run') and rng.chance(15),
+        'pump_gap': [rng.choice([0, 0, 2, 10]), rng.choice([0, 3, 20, 60])],
+        'pump_high': rng.choice([1, 8, 64, 65536]),
     }
     plan['out_chunks'] = gen_chunks(rng, n_out)
     plan['err_chunks'] = gen_chunks(rng, n_err)
@@ -238,6 +242,12 @@ def valid_plan(plan):
             return False
 
         if not 0 <= plan.get('late', 0) <= 300:
+            return False
+
+        gap = plan.get('pump_gap', [0, 0])
+
+        if len(gap) != 2 or any(not 0 <= g <= 200 for g in gap) or \
+                not 1 <= plan.get('pump_high', 16) <= 1 << 20:
             return False
 
         return plan['exit'][0] in ('status', 'signal', 'none')
@@ -634,10 +644,53 @@ def run_plan(plan, sched_seed=None, sched_replay=None):
 
             stdin_task = sim.track('srv-stdin', slurp())
 
-        t1 = sim.track('srv-out', feed(process.stdout, out_pieces, 'out'))
-        t2 = sim.track('srv-err', feed(process.stderr, err_pieces, 'err'))
-        await t1
-        await t2
+        if plan.get('srv_redirect') and cmd == 'cmd':
+            # the command's output comes from two local sources (the pipes
+            # of a job, say) redirected into the process, each filled at its
+            # own pace
+            sim.probes['server_side_redirect'] += 1
+            ro, re_ = asyncio.StreamReader(), asyncio.StreamReader()
+            # (a small send buffer, so that the client's window matters)
+            process.channel.set_write_buffer_limits(
+                high=plan.get('pump_high', 16))
+            await process.redirect(stdout=ro, stderr=re_, send_eof=False)
+
+            async def pump(rd, parts, name):
+                gap = plan.get('pump_gap', [0, 0])[name == 'err']
+
+                for p in parts:
+                    # (a slow source leaves its forwarder waiting in read()
+                    # while the other one fills the channel)
+                    for _ in range(gap):
+                        await sim.pause('pump:' + name)
+
+                    rd.feed_data(p.encode('utf-8') if text else p)
+
+                    if sim.tape.draw(2, 60):
+                        await sim.pause('pump:' + name)
+
+                for _ in range(gap):
+                    await sim.pause('pump:' + name)
+
+                rd.feed_eof()
+
+            t1 = sim.track('srv-out', pump(ro, out_pieces, 'out'))
+            t2 = sim.track('srv-err', pump(re_, err_pieces, 'err'))
+            await t1
+            await t2
+
+            try:
+                await process.stdout.drain()
+                await process.stderr.drain()
+            except (asyncssh.Error, OSError):
+                pass
+        else:
+            t1 = sim.track('srv-out', feed(process.stdout, out_pieces,
+                                           'out'))
+            t2 = sim.track('srv-err', feed(process.stderr, err_pieces,
+                                           'err'))
+            await t1
+            await t2
 
         # the command only exits once it has consumed its input (unless it
         # is one that never looks at it)
